@@ -1230,6 +1230,15 @@ class Executor:
     def ev_SetComp(self, e, st):
         raise Untranslatable("set comprehension")
 
+    def ev_DictComp(self, e, st):
+        if not self.lenient:
+            raise Untranslatable("dict comprehension")
+        # the source is evaluated (calls inside it are seen); the resulting dictionary is not tracked
+        for g in e.generators:
+            for _ in self.ev(g.iter, st):
+                pass
+        yield Unknown("dict comprehension"), st
+
     def comp_value(self, e, st):
         """A comprehension without filter as a lazily indexed View (elementwise function of the source)."""
         view, bind, ifs, s1 = self.comp_view(e, st)
